@@ -483,6 +483,21 @@ Lemma fetch_cases_table k :
   in_cases fetchArtifactType_cases k = match k with KArtifact | KImage | KIndex => true | _ => false end.
 Proof. destruct k; vm_compute; reflexivity. Qed.
 
+(* what the rules re-read from fetchArtifactType amount to (breaks when the source changes) *)
+Lemma fetch_artifact_type_table s id :
+  fetch_artifact_type s id =
+  match s_kind s id with
+  | KArtifact => s_mat s id
+  | KImage => if is_empty (s_mat s id) then s_mcfg s id else s_mat s id
+  | KIndex => s_mat s id
+  | _ => []
+  end.
+Proof.
+  destruct s as [sp sk sm sc sa sl]. unfold fetch_artifact_type. cbn [s_kind s_mat s_mcfg].
+  destruct (sk id); vm_compute; try reflexivity.
+  destruct (sm id); reflexivity.
+Qed.
+
 Lemma is_empty_true (x : str) : is_empty x = true <-> x = [].
 Proof. destruct x; simpl; split; congruence. Qed.
 
@@ -501,13 +516,13 @@ Lemma fill_at_type s p :
   desc_consistent s p -> d_at (fill_at s p) = effective_type s (d_id p).
 Proof.
   intros ([Ha | Ha] & _); unfold fill_at, fill_at_gen.
-  - rewrite Ha. simpl. unfold effective_type, fetch_artifact_type.
-    rewrite at_fetch_kind_table, fetch_cases_table.
+  - rewrite Ha. simpl. unfold effective_type.
+    rewrite at_fetch_kind_table, fetch_artifact_type_table.
     destruct (s_kind s (d_id p)); simpl; auto.
   - destruct (is_empty (d_at p)) eqn:Ee; auto.
     apply is_empty_true in Ee. rewrite Ee in *.
-    unfold effective_type, fetch_artifact_type in *.
-    rewrite at_fetch_kind_table, fetch_cases_table.
+    unfold effective_type in *.
+    rewrite at_fetch_kind_table, fetch_artifact_type_table.
     destruct (s_kind s (d_id p)); simpl; auto.
 Qed.
 
